@@ -15,7 +15,7 @@ def generate(rng, tier):
     xfers = []
     for _ in range(rng.randint(2, 6)):
         ln = rng.choice([dw, dw, 8, rng.randint(1, dw), 1])
-        xfers.append({"mode": rng.randrange(4), "divider": rng.choice([0, 1, 2, 3, 4, 5, 8, 13]), "length": ln, "mosi": rng.getrandbits(dw), "miso": rng.getrandbits(ln),
+        xfers.append({"mode": rng.randrange(4), "divider": rng.choice([2, 2, 3, 4, 5, 8, 13]), "length": ln, "mosi": rng.getrandbits(dw), "miso": rng.getrandbits(ln),
                       "lead": rng.choice([2, 3, 6]), "gap": rng.choice([1, 2, 3, 5, 9, 20])})
     return {"family": "spimmap", "params": {"data_width": dw, "settle": rng.choice([0, 2, 5]), "loopback": rng.random() < 0.1}, "xfers": xfers}
 
